@@ -47,3 +47,43 @@ def poolPut (s : Sys) (p : PoolSt) (id : Nat) : Sys × PoolSt × String :=
       else ((closeStream s1 .a id).1, p, "closed-full")
 
 end Proto
+
+/-! ### the ring itself: streamPool.pop / push index a fixed array with two ever-growing counters modulo the capacity -/
+namespace Ring
+open List
+
+structure R where
+  cap : Nat
+  slots : List Nat            -- the array `streams` (length = cap)
+  head : Nat
+  tail : Nat
+  deriving DecidableEq, Repr
+
+/-- streamPool.push -/
+def push (r : R) (s : Nat) : R × Bool :=
+  if r.tail - r.head < r.cap then ({ r with slots := r.slots.set (r.tail % r.cap) s, tail := r.tail + 1 }, true)
+  else (r, false)
+
+/-- streamPool.pop -/
+def pop (r : R) : R × Option Nat :=
+  if r.tail > r.head then ({ r with head := r.head + 1 }, some (r.slots.getD (r.head % r.cap) 0))
+  else (r, none)
+
+/-- what the pool holds, oldest first -/
+def abs (r : R) : List Nat := (List.range (r.tail - r.head)).map (fun i => r.slots.getD ((r.head + i) % r.cap) 0)
+
+
+/-- the empty pool -/
+def empty (cap age : Nat) : R := { cap := cap, slots := List.replicate cap 0, head := age, tail := age }
+
+/-- the variant that truncates the counters to 32 bits before the modulo (a seeded change): fine until a counter passes
+    2^32 when the capacity does not divide 2^32 -/
+def push32 (r : R) (s : Nat) : R × Bool :=
+  if r.tail - r.head < r.cap then ({ r with slots := r.slots.set ((r.tail % 2 ^ 32) % r.cap) s, tail := r.tail + 1 }, true)
+  else (r, false)
+
+def pop32 (r : R) : R × Option Nat :=
+  if r.tail > r.head then ({ r with head := r.head + 1 }, some (r.slots.getD ((r.head % 2 ^ 32) % r.cap) 0))
+  else (r, none)
+
+end Ring
